@@ -697,6 +697,10 @@ pub fn gen_seq_case(rng: &mut Rng, thorough: bool, choice: TrigChoice) -> String
             } else if choice == TrigChoice::Any && r.starts_with('b') && rng.chance(1, 10) {
                 let nchunks = r.split_once(':').map(|(_, b)| if b.is_empty() { 0 } else { b.split('+').count() }).unwrap_or(0);
                 ops.push(format!("e{}!{}", rng.range(0, nchunks as u64), r));
+            } else if choice == TrigChoice::Startup && i < 2 && r.starts_with('b') && rng.chance(1, 4) {
+                // the first / second record's encoder fails
+                let nchunks = r.split_once(':').map(|(_, b)| if b.is_empty() { 0 } else { b.split('+').count() }).unwrap_or(0);
+                ops.push(format!("e{}!{}", rng.range(0, nchunks as u64), r));
             } else if choice == TrigChoice::Startup && i == 0 && rng.chance(1, 4) {
                 ops.push(format!("g!{}", r));
             } else {
